@@ -55,6 +55,13 @@ def run(ctx):
             from . import rules_C11
             for fam in ("hotspot", "circuitbreaker", "flow"):
                 rules_C11.reuse_shape(ctx, f, fam, cfg, R="C12.hang/reuse-shape")
+            lru_recency(ctx, f, cfg)
+            # premise of several table rows ("only valid rules reach a controller / breaker"): the validity filter of every manager
+            from . import rules_C10
+            for fam in rules_C10.FAMILIES:
+                bodies = rules_C10.manager_bodies(f, fam)
+                if bodies:
+                    rules_C10.validity(ctx, f, rules_C10.ValidSets(f, bodies, fam), fam, bodies, cfg)
 
 
 def reach_rule(ctx, f, g, cfg):
@@ -262,3 +269,22 @@ def generators(ctx, f, cfg):
             ctx.violation("C12.generators", "C12.generators|" + p.replace("core::", "", 1),
                           "generator %s can publish a controller without %s; perform_checking unwraps them" % (p, missing or "owner back-pointer"), b.loc(), config=cfg)
     ctx.floor("C12.generators", "built-in generator bodies constructing a Controller", n, 6)
+
+
+def lru_recency(ctx, f, cfg, R="C12.hang/lru-recency"):
+    """The hotspot QPS checkers keep two LRU caches per rule (time cell, token cell) that must evict the same keys: the reject checker
+    waits (spins) for the token cell of a key whose time cell exists.  They stay in step only if every access through the counter
+    cache refreshes the key's recency - a read that merely peeks lets one cache evict a key the other keeps, and the next check of that
+    key never returns.  Rule: the cache's `get` goes through an LRU operation that promotes the key."""
+    impls = [b for b in f.impl_methods("CounterTrait", "get") if "Mock" not in (b.impl_self or "")]
+    if not ctx.floor(R, "impl CounterTrait::get for the hotspot counter cache", len(impls), 1):
+        return
+    for b in impls:
+        b = f.view(b)
+        ops = sorted({callee_def(t).rsplit("::", 1)[-1] for _, t in b.calls() if "LruCache" in callee_def(t)})
+        promoting = [o for o in ops if o in ("get", "get_mut", "get_or_insert", "get_or_insert_mut", "promote", "put", "push")]
+        ok = bool(promoting)
+        ctx.instance(R, b.path, {"lru_operations": ops}, "a promoting LRU read (get / get_mut), not peek", ok, cfg)
+        if not ok:
+            ctx.violation(R, "%s|%s" % (R, ",".join(ops) or "none"), "the hotspot counter cache reads a cell without refreshing its recency (%s): the time and token caches of a rule can evict different keys, "
+                          "and the reject checker then spins for a token cell that is gone while holding the rule's checker mutex" % (ops or "no LRU read"), b.loc(), config=cfg)
